@@ -55,7 +55,7 @@ def run(ctx):
                                 ctx.case((kind, par, s, stop, hidden, ml), sample=dict(case, exporter=kind, start=s, stop=sorted(stop), hidden=sorted(hidden), maxlevel=ml) if ctx.evals % 40009 == 0 else None)
                                 G.check_dot(ctx, "C12", kind, lib, nodes, idmap, names, par, ch, s, stop, hidden, ml, None, case, known)
         ctx.exhaustive.append("all ordered trees with %d nodes x every start x maxlevel None,0..4 x all %d stop sets x %d filter sets x {DotExporter, UniqueDotExporter}" % (n, len(allsets), len(fsets)))
-    nrand = (20000 if T else 960) // ctx.nshards + 1
+    nrand = (150000 if T else 960) // ctx.nshards + 1
     for r in range(nrand):
         rng = ctx.rng("rand", r)
         n = rng.randint(1, 14)
